@@ -2506,7 +2506,12 @@ def dsl_lazy(eng, name, node, frame):
             run.cond_stack.pop()
         pats = _patterns_for(body, k)
         if name == "forall_range":
-            return tv_bool(z3.ForAll([k], z3.Implies(rng, body), patterns=pats) if pats else z3.ForAll([k], z3.Implies(rng, body)))
+            if pats:
+                try:
+                    return tv_bool(z3.ForAll([k], z3.Implies(rng, body), patterns=pats))
+                except z3.Z3Exception:
+                    pass    # the candidate trigger contains an if-then-else: let z3 choose
+            return tv_bool(z3.ForAll([k], z3.Implies(rng, body)))
         return tv_bool(z3.Exists([k], z3.And(rng, body)))
     if name == "forall_keys":
         d = eng.to_tv(eng.eval(node.args[0], frame))
@@ -2522,7 +2527,7 @@ def dsl_lazy(eng, name, node, frame):
         pat = dv.get(x)
         if z3.is_app(pat) and pat.decl().kind() == z3.Z3_OP_SELECT and not z3.is_const(pat.arg(0)):
             return tv_bool(z3.ForAll([x], z3.Implies(dv.has(x), body)))       # a computed array is no valid trigger
-        return tv_bool(z3.ForAll([x], z3.Implies(dv.has(x), body), patterns=[pat]))
+        return tv_bool(_forall([x], z3.Implies(dv.has(x), body), [pat]))
     if name == "forall_in":
         seq = eng.eval(node.args[0], frame)
         lam = node.args[1]
@@ -2542,8 +2547,18 @@ def dsl_lazy(eng, name, node, frame):
         finally:
             run.cond_stack.pop()
         pats = _patterns_for(body, k)
-        return tv_bool(z3.ForAll([k], z3.Implies(rng, body), patterns=pats) if pats else z3.ForAll([k], z3.Implies(rng, body)))
+        return tv_bool(_forall([k], z3.Implies(rng, body), pats))
     raise _U(name)
+
+
+def _forall(vs, body, patterns=None):
+    """ForAll with triggers; a trigger z3 rejects (it contains an if-then-else) is dropped, z3 then chooses its own."""
+    if patterns:
+        try:
+            return z3.ForAll(vs, body, patterns=patterns)
+        except z3.Z3Exception:
+            pass
+    return z3.ForAll(vs, body)
 
 
 def _patterns_for(body, k):
@@ -2669,7 +2684,7 @@ def comprehension(eng, node, frame, kind):
                 run.assume(z3.ForAll([k], z3.Implies(rng, z3.Not(ck))))
     arr = z3.Const(run.fresh_name("carr"), z3.ArraySort(z3.IntSort(), S.Val))
     body = z3.And([z3.Select(arr, k) == elt_k] + facts_k)
-    run.assume(z3.ForAll([k], z3.Implies(rng, body), patterns=[z3.Select(arr, k)]))
+    run.assume(_forall([k], z3.Implies(rng, body), [z3.Select(arr, k)]))
     if kind == "gen":
         return SeqView(view.length, lambda i: tv_val(z3.Select(arr, i)))
     fr = run.alloc("list", eng.ct.ext["list"])
@@ -2788,8 +2803,8 @@ def filtered_comprehension(eng, node, frame, kind, view):
     src_elt = eng.to_tv(view.nth(k)).val()
     if z3.is_app(src_elt) and src_elt.decl().kind() == z3.Z3_OP_UNINTERPRETED and _mentions_const(src_elt, k):
         pats.append(src_elt)
-    run.assume(z3.ForAll([k], z3.Implies(z3.And(rng, cond_k), z3.And(0 <= posf(k), posf(k) < n, z3.Select(arr, posf(k)) == elt_k, srcf(posf(k)) == k)),
-                         patterns=pats))
+    run.assume(_forall([k], z3.Implies(z3.And(rng, cond_k), z3.And(0 <= posf(k), posf(k) < n, z3.Select(arr, posf(k)) == elt_k, srcf(posf(k)) == k)),
+                       pats))
     run.assumptions_used.add("filtered comprehension over a sequence of unknown length: result characterised by skolem position functions")
     if kind == "gen":
         return SeqView(n, lambda i: tv_val(z3.Select(arr, i)))
@@ -2860,8 +2875,8 @@ def dict_comprehension(eng, node, frame):
     pats = [z3.Select(karr, k)]
     if z3.is_app(key_k) and key_k.decl().kind() == z3.Z3_OP_UNINTERPRETED and _mentions_const(key_k, k):
         pats.append(key_k)      # also fire on the source's own key term (seq_nth(dict_keys(src), k))
-    run.assume(z3.ForAll([k], z3.Implies(rng, z3.And([z3.Select(karr, k) == key_k, z3.Select(varr, k) == val_k,
-                                                      z3.Select(has, key_k), z3.Select(get, key_k) == val_k] + facts_k)), patterns=pats))
+    run.assume(_forall([k], z3.Implies(rng, z3.And([z3.Select(karr, k) == key_k, z3.Select(varr, k) == val_k,
+                                                    z3.Select(has, key_k), z3.Select(get, key_k) == val_k] + facts_k)), pats))
     run.assume(z3.ForAll([k], z3.Implies(rng, z3.And([z3.Select(varr, k) == val_k])), patterns=[z3.Select(varr, k)]))
     run.assumptions_used.add("dict comprehension over a symbolic sequence: keys assumed pairwise distinct (they are the keys of a dict in every enrolled use)")
     x = z3.Const(run.fresh_name("dx"), S.Val)
